@@ -204,6 +204,8 @@ def check_case(case, acc):
                 if cls in ("AlphaCdr3Levenshtein", "BetaCdrLevenshtein"):      # the edit-weight scorer is shared by all six classes
                     combos += [dict(zip(WNAMES[:3], t)) for t in itertools.product((1, 2, 3), repeat=3) if len(set(t)) > 1 or t[0] > 1]
                     combos += [dict(zip(WNAMES[:3], t)) for t in ((4, 4, 7), (3, 3, 5), (5, 5, 6), (2, 2, 4))]
+                    # unequal insertion / deletion weights with a substitution dearer than, equal to and just below their sum (an indel-only optimum)
+                    combos += [dict(zip(WNAMES[:3], t)) for t in ((1, 2, 4), (2, 1, 4), (1, 3, 5), (3, 1, 5), (2, 3, 6), (3, 2, 6), (1, 2, 5), (2, 1, 5), (1, 4, 6), (4, 1, 5), (1, 3, 4), (3, 1, 4))]
                 combos += [{n1: v1, n2: v2} for n1, n2 in itertools.combinations(acc_names, 2) for v1 in (1, 2) for v2 in (1, 2) if (v1, v2) != (1, 1)]
                 # large chain x loop multipliers: sums beyond 2^24 stay exact integers
                 big = {n: 4099 for n in acc_names if n in ("alpha_weight", "beta_weight", "cdr3_weight")}
